@@ -3,6 +3,7 @@ pub mod c01;
 pub mod c02;
 pub mod c03;
 pub mod c04;
+pub mod c05;
 pub mod c09;
 pub mod c10;
 pub mod c11;
@@ -16,6 +17,8 @@ pub fn run(prop: &str, tier: Tier) -> Report {
         "C02" => c02::run(tier),
         "C03" => c03::run(tier),
         "C04" => c04::run(tier),
+        "C05" => c05::run(tier),
+        "C06" => c05::run_c06(tier),
         "C09" => c09::run(tier),
         "C10" => c10::run(tier),
         "C11" => c11::run(tier),
@@ -34,6 +37,8 @@ pub fn replay(prop: &str, _tier: Tier, case: &serde_json::Value) -> Vec<Violatio
         "C02" => c02::replay(case),
         "C03" => c03::replay(case),
         "C04" => c04::replay(case),
+        "C05" => c05::replay(case),
+        "C06" => c05::replay_c06(case),
         "C09" => c09::replay(case),
         "C10" => c10::replay(case),
         "C11" => c11::replay(case),
